@@ -47,7 +47,11 @@ def case_st(draw):
             paths.append('/' + draw(st.text(st.sampled_from(list('ab/1-.té\r')), max_size=8)))
         else:
             paths.append(draw(R.path_for(draw(st.sampled_from(asts)))))
-    return {'regs': regs, 'spell': spell, 'paths': paths}
+    hooks = []
+    for _ in range(draw(st.sampled_from([0, 0, 0, 1, 2]))):
+        src = draw(st.sampled_from(asts))
+        hooks.append({'ast': src[:draw(st.integers(1, max(1, len(src))))], 'type': draw(st.sampled_from([0, 0, 1]))})
+    return {'regs': regs, 'spell': spell, 'paths': paths, 'hooks': hooks}
 
 
 _LAST = {}
@@ -65,6 +69,16 @@ def register(case):
     first_on = {}                   # pattern key -> ast of the rule that created the Route object
     _LAST['events'] = events        # the successful steps in order, replayed on an application by _wsgi_part
     mk = lambda i: (lambda **kw: (i, kw))   # noqa
+    # route hooks (on_route / per-prefix 404 handlers) on rule prefixes that need not have a handler of their own: they never change which rule answers a path
+    for hk in case.get('hooks') or ():
+        htext = R.render(R.merge(hk['ast']), (), case['spell']) if hk['ast'] and hk['ast'][0][0] == 'lit' and hk['ast'][0][1].startswith('/') else None
+        if htext is None or not R.legal(R.merge(hk['ast'])):
+            continue
+        try:
+            router.add_hook(htext, (lambda *a: None), hook_type=hk.get('type', 0))
+            events.append(('hook', 0, htext, hk.get('type', 0)))
+        except Exception:
+            pass
     for i, reg in enumerate(case['regs']):
         text = R.render(reg['ast'], reg['choice'], case['spell'])
         texts[i] = text
@@ -206,6 +220,14 @@ def _wsgi_part(ctx, case, accepted, texts, events):
                 raise CheckFailure(f'rule {texts[i]!r} was accepted by RadiRouter.add but rejected by Ombott.route on an identical history')
             ok = [(j, a, mm) for (j, a, mm) in ok if not (mm == m and R.pattern_key(a) == R.pattern_key(ast))]
             ok.append((i, ast, m))
+        elif ev == 'hook':
+            try:
+                if m:
+                    app.error(404, rule=ast)(lambda *a: app.abort(404) if False else __import__('ombott').HTTPError(404, 'hooked'))
+                else:
+                    app.on_route(ast, lambda *a: None)
+            except Exception:
+                pass
         elif ev == 'attach':
             def h2(_i=i + 1000, **kw):
                 box['got'] = (_i, kw)
@@ -385,6 +407,14 @@ def fixed_grid(ctx):
         for spell in (0, 1):
             ctx.guarded(check_case, {'regs': [{'ast': R._fix(a), 'choice': [2], 'method': 'GET'} for a in rs], 'spell': spell, 'paths': ps})
     ctx.count('fixed_grid_recurring_literals_and_normalisable_text')
+    # a hook on a rule that has no handler of its own, where a sibling wildcard rule matches exactly that path
+    for hk, rs, ps in (([L('/api/v1')], [[L('/api/'), W('version')], [L('/api/v1/users')]], ['/api/v1', '/api/v1/users', '/api/v2', '/api/v1/x']),
+                       ([L('/a/b')], [[L('/a/'), W('p', 'path')], [L('/a/b/c')]], ['/a/b', '/a/b/c', '/a/b/d']),
+                       ([L('/n/'), W('i', 'int')], [[L('/n/'), W('i', 'int'), L('/x')], [L('/n/'), W('s', 're', '[0-9a-z]+')]], ['/n/12', '/n/12/x', '/n/ab'])):
+        for typ in (0, 1):
+            for spell in (0, 1):
+                ctx.guarded(check_case, {'regs': [{'ast': R._fix(a), 'choice': [2], 'method': 'GET'} for a in rs], 'spell': spell, 'paths': ps, 'hooks': [{'ast': R._fix(hk), 'type': typ}]})
+    ctx.count('fixed_grid_hook_on_handlerless_rule')
 
 
 def run(ctx):
